@@ -343,12 +343,55 @@ def read_flags():
     return res
 
 
+def no_name_registry():
+    """The model identifies a timer by its handler object and nothing else.  True iff sys_fn_timer.py has no place
+    where handlers could be kept by name (or at all) between calls: no module-level statement other than imports,
+    class and function definitions (and a docstring); no class-level statement in KGTimerHandler other than methods;
+    no `global` / `nonlocal` outside _call_periodic.run; no attribute stored on a function or module object."""
+    m = astlib.module("klongpy/sys_fn_timer.py")
+    for n in m.body:
+        if isinstance(n, (ast.Import, ast.ImportFrom, ast.FunctionDef, ast.ClassDef)):
+            continue
+        if isinstance(n, ast.Expr) and isinstance(n.value, ast.Constant) and isinstance(n.value.value, str):
+            continue
+        raise ShapeError("module-level statement in sys_fn_timer.py: %s" % ast.unparse(n)[:60])
+    for c in m.body:
+        if isinstance(c, ast.ClassDef):
+            if c.decorator_list or c.keywords:
+                raise ShapeError("class %s has decorators / metaclass" % c.name)
+            for n in c.body:
+                if isinstance(n, ast.FunctionDef) and not n.decorator_list:
+                    continue
+                if isinstance(n, ast.Expr) and isinstance(n.value, ast.Constant) and isinstance(n.value.value, str):
+                    continue
+                raise ShapeError("class-level statement in %s: %s" % (c.name, ast.unparse(n)[:60]))
+    per = astlib.find_func(m, "_call_periodic")
+    run = astlib.find_func(per, "run")
+    inside_run = set(id(x) for x in ast.walk(run))
+    for n in ast.walk(m):
+        if isinstance(n, ast.Global):
+            raise ShapeError("global statement: %s" % ast.unparse(n))
+        if isinstance(n, ast.Nonlocal) and id(n) not in inside_run:
+            raise ShapeError("nonlocal outside run")
+        if isinstance(n, ast.FunctionDef) and n.decorator_list:
+            raise ShapeError("decorated function %s" % n.name)
+        if isinstance(n, ast.arguments):
+            for d in list(n.defaults) + [k for k in n.kw_defaults if k is not None]:
+                if isinstance(d, (ast.Dict, ast.List, ast.Set, ast.Call, ast.ListComp, ast.DictComp, ast.SetComp)):
+                    raise ShapeError("mutable default argument")
+    return True
+
+
 def generate():
     f = read_flags()
+    reg, why = astlib.try_flag(no_name_registry)
+    if reg is None:
+        f["why"].append(why)
     out = []
     for w in f["why"]:
         out.append("(* shape not recognised: %s *)" % w.replace("*)", "* )"))
     out.append("Definition timer_shape_ok : bool := %s." % astlib.coq_bool(f["shape_ok"]))
+    out.append("Definition timer_has_no_name_registry : bool := %s." % astlib.coq_bool(bool(reg)))
     out.append("Definition gen_guard : bool := %s." % astlib.coq_bool(f["guard"]))
     out.append("Definition gen_clear : bool := %s." % astlib.coq_bool(f["clear"]))
     out.append("Definition gen_mono : bool := %s." % astlib.coq_bool(f["mono"]))
@@ -545,6 +588,17 @@ def retvalue(code):
             KGSym("s")][code]
 
 
+_klong2 = None
+
+
+def _interp2():
+    global _klong2
+    if _klong2 is None:
+        from klongpy import KlongInterpreter
+        _klong2 = KlongInterpreter()
+    return _klong2
+
+
 class ScriptRaise(Exception):
     pass
 
@@ -612,12 +666,23 @@ def impl_run(case, real=False):
     info = {"refused": 0}
     pool = [(y, [tuple(q) for q in steps]) for (y, steps) in case.get("pool", [])]
 
+    # the NAME string given to .timer (first argument) is no identity: several live timers may carry the same one.
+    # case["names"][i] = name index of the i-th timer created (default: all different); case["interps"][i] = 1: the
+    # timer is started through a second KlongInterpreter of this process (python callbacks only)
+    names = case.get("names") or []
+    interps = case.get("interps") or []
+
     def create(y, steps):
         i = len(th)
+        nm = "n%d" % names[i % len(names)] if names else "t%d" % i
         if named:
-            h = klong('.timer("t%d";%d;cb%d)' % (i, y, i))
+            h = klong('.timer("%s";%d;cb%d)' % (nm, y, i))
         else:
-            h = eval_sys_fn_timer(klong, "t%d" % i, y, (lambda i=i: tick(i, 0)))
+            kl = klong
+            if interps and interps[i % len(interps)]:
+                kl = _interp2()
+                kl['.system'] = {'klongloop': loop}
+            h = eval_sys_fn_timer(kl, nm, y, (lambda i=i: tick(i, 0)))
         if y < 0:
             if not isinstance(h, str):
                 raise RuntimeError("negative interval accepted")
@@ -794,7 +859,13 @@ def random_case(rng, named, big=False):
             lats.append(rng.randint(1, U))
         else:
             lats.append(rng.randint(U, 7 * U))
-    return {"mode": "klong" if named else "py", "res": res, "lifo": int(rng.random() < 0.3), "t0": t0, "exts": exts,
+    extra = {}
+    if rng.random() < 0.35:
+        # same name string for several timers (incl. those created inside callbacks)
+        extra["names"] = [rng.randint(0, 1) for _ in range(nt + len(pool))] if rng.random() < 0.5 else [0]
+    if not named and rng.random() < 0.15:
+        extra["interps"] = [rng.randint(0, 1) for _ in range(nt + len(pool))]
+    return {**extra, "mode": "klong" if named else "py", "res": res, "lifo": int(rng.random() < 0.3), "t0": t0, "exts": exts,
             "timers": timers, "pool": pool, "lats": lats, "fuel": rng.choice([3, 10, 40, 40, 40]), "kind": "random"}
 
 
@@ -839,10 +910,43 @@ def retval_cases(named):
                            "kind": "retval-%d" % code}
 
 
+WITNESS["same-name"] = {"mode": "py", "res": 1024, "lifo": 0, "t0": 0, "exts": [(5 * U + 7, 0, 0)], "names": [0],
+                        "timers": [(0, 1, [(0, 1, 0, 0)] * 4 + [(0, 0, 0, 0)]), (U + U // 2, 2, [(0, 1, 0, 0), (0, 0, 0, 0)])],
+                        "lats": [], "fuel": 20, "kind": "witness-samename"}
+
+
+def same_name_cases(named):
+    """two or three timers alive at once under ONE name: same / different intervals, started at set-up, later from an
+    external point of view (gap) or from inside a callback, in one interpreter or (python callbacks) in two"""
+    live = [(0, 1, 0, 0)] * 3 + [(0, 0, 0, 0)]
+    for y1 in INTERVALS:
+        for y2 in INTERVALS:
+            for gap in (0, U // 2, U + 3):
+                for third in (None, 1):
+                    for how in ("setup", "spawn"):
+                        for interps in ([0], [0, 1]) if not named else ([0],):
+                            timers = [(0, y1, list(live) if how == "setup" else [(0, 1, 4, 0)] + list(live))]
+                            pool = []
+                            if how == "setup":
+                                timers.append((gap, y2, list(live)))
+                            else:
+                                pool.append((y2, list(live)))
+                            if third is not None:
+                                timers.append((1, third, [(0, 1, 1, 0), (0, 1, 0, 0), (0, 0, 0, 0)]))
+                            c = {"mode": "klong" if named else "py", "res": 1024, "lifo": 0, "t0": 3, "exts": [(9 * U, 0, 0), (9 * U, 0, 1)],
+                                 "names": [0], "timers": timers, "pool": pool, "lats": [0, 5], "fuel": 40, "kind": "samename-" + how}
+                            if interps != [0]:
+                                c["interps"] = interps
+                            yield c
+
+
 def build_cases(chk, rng):
     """generator of all cases of a run"""
     for c in WITNESS.values():
         yield c
+    for named in (False, True):
+        for c in same_name_cases(named):
+            yield c
     for named in (False, True):
         for c in retval_cases(named):
             yield c
